@@ -95,7 +95,9 @@ def run_bulk(scn, ctx):
         require(res.exc is None and res.exit_code == 0, "sf-exit", res.brief()[:300], res)
         got = {}
         cur = None
-        for l in res.stdout.splitlines()[1:]:
+        for l in res.stdout.split("\n")[1:]:
+            if l == "":
+                continue
             m = SF_RE.match(l)
             if m:
                 got[cur].append((int(m.group(1)), m.group(2), m.group(3), m.group(4), m.group(5)))
@@ -119,7 +121,7 @@ def parse_info(out):
     """-> list of (history path, [(n, date)])"""
     blocks = []
     cur = None
-    for l in out.splitlines():
+    for l in out.split("\n"):
         if l.startswith("Info with history at path: "):
             cur = (l[len("Info with history at path: "):], [])
             blocks.append(cur)
@@ -208,7 +210,9 @@ def run_case(scn, ctx):
                 else:
                     res = w.info(None if form == "noroot" else h, sf=[full])
                 require(res.exc is None and res.exit_code == 0, "sf-exit", res.brief(), res)
-                out = res.stdout.splitlines()
+                out = res.stdout.split("\n")
+                if out and out[-1] == "":
+                    out.pop()
                 require(len(out) >= 2 and out[0] == "Info with history at path: " + w.abs(h), "sf-history", "first line %r, nearest history %r" % (out[:1], w.abs(h)), res)
                 require(out[1] == relp + ":", "sf-path", "path line %r, expected %r" % (out[1], relp + ":"), res)
                 got = []
